@@ -81,6 +81,29 @@ def auto(site, prog):
                     if isinstance(end, tuple) and end and end[0] == "call" and end[1].rsplit("::", 1)[-1] == "len" and end[2] and K.peel(end[2][0]) == K.peel(cap):
                         return "index drawn from 0..len() of the very collection it indexes"
     if site.kind == "panic":
+        # `if xs.is_empty() { return } .. debug_assert!(!xs.is_empty())`: the panic edge asks for the opposite of a condition that dominates it - infeasible
+        from engine import guards as _G0
+        from engine import paths as _P0
+        try:
+            _PURE = ("len", "is_empty", "is_some", "is_none", "inner", "slot", "as_ref", "deref", "as_slice", "first", "last", "get", "contains", "contains_key", "as_usize", "count_ones")
+
+            def _stable(t):
+                """the same pure accessor applied to the same immutable parameter yields the same value wherever it is evaluated: drop the call-site id"""
+                if not isinstance(t, tuple) or not t:
+                    return t
+                if t[0] == "call" and len(t) > 3 and t[1].rsplit("::", 1)[-1] in _PURE:
+                    roots = [y for y in mir.walk(t) if isinstance(y, tuple) and y and y[0] in ("param", "local", "upvar", "field")]
+                    if roots and all(y[0] == "param" and not b.local_ty(y[1]).startswith("&mut") for y in roots if y[0] != "field") and not any(y[0] in ("local", "upvar") for y in roots):
+                        return (t[0], t[1], tuple(_stable(a) for a in t[2]), 0)
+                if t[0] in ("bin", "un", "cast", "field", "variant", "tuple"):
+                    return tuple(_stable(x) if isinstance(x, tuple) else x for x in t)
+                return t
+            _atoms = [(a[0], tuple(_stable(x) if isinstance(x, tuple) else x for x in a[1]), a[2]) + tuple(a[3:]) for a in _G0.guard_atoms(b, site.bb, prog)]
+            if _atoms and not _P0.feasible([a for a in _atoms if a[0] != "lowered"]):
+                return "assertion restating a dominating check (its failure edge contradicts a condition established above): unreachable"
+        except Exception:
+            pass
+    if site.kind == "panic":
         # `if let Err(e) = tx.send(x).await { panic!(..) }`: the let-else / match spelling of `.expect(..)` on a local channel send (A3)
         from engine import guards as _G
         for a in _G.guard_atoms(b, site.bb, prog):
